@@ -467,6 +467,30 @@ func hasQuant(t *Term, memo map[*Term]bool) bool {
 	return r
 }
 
+// hasNonlinear reports whether t contains a product of two non-literal factors
+func hasNonlinear(t *Term, memo map[*Term]bool) bool {
+	if r, ok := memo[t]; ok {
+		return r
+	}
+	r := false
+	if t.Op == "*" && len(t.Args) == 2 {
+		lit := func(x *Term) bool { return x.Op == "int" || x.Op == "real" }
+		if !lit(t.Args[0]) && !lit(t.Args[1]) {
+			r = true
+		}
+	}
+	if !r {
+		for _, a := range t.Args {
+			if hasNonlinear(a, memo) {
+				r = true
+				break
+			}
+		}
+	}
+	memo[t] = r
+	return r
+}
+
 // heapSyms: the array-sorted constants and spec-function symbols of a term
 func heapSyms(t *Term, memo map[*Term]map[string]bool) map[string]bool {
 	if m, ok := memo[t]; ok {
@@ -497,9 +521,16 @@ func relevantHyps(hyps []*Term, goal *Term) []*Term {
 		rel[k] = true
 	}
 	keep := make([]bool, len(hyps))
+	dropped := make([]bool, len(hyps))
+	nlm := map[*Term]bool{}
+	goalNL := hasNonlinear(goal, nlm)
 	for i, h := range hyps {
 		if !hasQuant(h, qm) {
-			keep[i] = true
+			// a ground hypothesis with a product of two non-literals (e.g. the definition of
+			// int(frac*float64(n))) is dropped when the goal has none: it pushes the solvers into
+			// nonlinear arithmetic for goals about heap arrays. Dropping hypotheses is sound.
+			keep[i] = goalNL || !hasNonlinear(h, nlm)
+			dropped[i] = !keep[i]
 		}
 	}
 	// ground equalities between array constants link heap versions
@@ -507,7 +538,7 @@ func relevantHyps(hyps []*Term, goal *Term) []*Term {
 		changed = false
 		for i, h := range hyps {
 			syms := heapSyms(h, sm)
-			if keep[i] && hasQuant(h, qm) {
+			if (keep[i] && hasQuant(h, qm)) || dropped[i] {
 				continue
 			}
 			inter := false
@@ -910,6 +941,27 @@ func solveFile(o *Obligation, file string, cfg *SolveConfig) {
 			race([]string{"cvc5"}, cfg.t2)
 		} else {
 			race([]string{"cvc5", "z3", "z3new", "z3e"}, cfg.t2)
+		}
+	}
+	if !o.ExpectSat && !cfg.allAgree {
+		dec := false
+		for _, r := range results {
+			if decisive(r) {
+				dec = true
+			}
+		}
+		if _, err := os.Stat(file + ".rel"); err == nil && !dec {
+			// last resort: cvc5 on the reduced hypothesis set (an unsat answer is sound; anything else is ignored)
+			r := runSolver(ctx, "cvc5", file+".rel", cfg.t2)
+			if r.verdict == "unsat" {
+				record(r)
+				o.Verdict, o.Solver, o.Secs = "unsat", r.solver, r.secs
+				o.Detail = fmt.Sprintf("%s=unsat(%.2fs) on the reduced hypothesis set %s.rel", r.solver, r.secs, file)
+				tally.Lock()
+				tally.bySolver[o.Solver]++
+				tally.Unlock()
+				return
+			}
 		}
 	}
 	var sawSat, sawUnsat *solveResult
